@@ -350,12 +350,13 @@ def run(model, tier="quick"):
     return res
 
 MANIFEST = {
-    "technique": "formula identity by syntactic value numbering to exact rational normal forms, plus arg-max/sign/argument-role rules",
+    "technique": "formula identity by syntactic value numbering to exact rational normal forms (incl. the drawdown scan as a canonical loop), plus argument-role rule",
     "claim": "Each metric function (return value/rate, six arms of the annualised return, return multiples/rates, "
              "volatility, Sharpe, alpha/beta) and the metric registry are shown identical, as canonical piecewise rational "
-             "expressions over pandas/numpy atoms, to references written from the definitions; the drawdown's selection "
-             "criterion and reported quantity are the same function of (peak, trough) and it cannot be negative. Holds for "
-             "every input because it is an identity of expressions.",
+             "expressions over pandas/numpy atoms, to references written from the definitions; the drawdown scan equals the "
+             "reference scan as a canonical loop (running peak over the bars before i of the whole series, candidate = the "
+             "relative decline that is reported, start = no decline) and max_draw_down reads the full series at the scan's "
+             "indices. Holds for every input because it is an identity of expressions.",
     "note": "Trusted: pandas/numpy semantics of the atoms (shift, pct_change, std, cov, prod, Timedelta.value); the "
             "reference transcriptions in sa/props/C20.py. Not decided: floating-point agreement with a recomputation.",
 }
